@@ -100,3 +100,31 @@ package ip
 //@   trusted
 //@   ensures res == addrParse(s)
 //@   assigns nothing
+
+//@ -- ---------------------------------------------------------------- abstract model of a CIDR trie (trusted)
+//@ -- The pointer-linked trie itself is not verified (see C36's level note).  Code that USES a trie is checked
+//@ -- against this abstract model: a trie stores a set of prefixes; cidrWithin(a, b) means prefix a lies inside
+//@ -- (or equals) prefix b.  These contracts are assumptions about the trie, listed in the evidence of every
+//@ -- property that relies on them.
+//@ ghost field (*CIDRTrie).cidrs set[CIDR]
+//@ spec func cidrWithin(inner CIDR, outer CIDR) bool
+//@ func NewCIDRTrie
+//@   trusted
+//@   ensures res != nil && fresh(res) && res.cidrs == emptyset(CIDR)
+//@   assigns nothing
+//@ func (*CIDRTrie).Update
+//@   trusted
+//@   ensures t.cidrs == store(old(t.cidrs), cidr, true)
+//@   assigns t.cidrs
+//@ func (*CIDRTrie).Get
+//@   trusted
+//@   ensures (res != nil) == t.cidrs[cidr]
+//@   assigns nothing
+//@ func (*CIDRTrie).Intersects
+//@   trusted
+//@   ensures res == (exists c CIDR :: t.cidrs[c] && cidrWithin(c, cidr))
+//@   assigns nothing
+//@ func (*CIDRTrie).Covers
+//@   trusted
+//@   ensures res == (exists c CIDR :: t.cidrs[c] && cidrWithin(cidr, c))
+//@   assigns nothing
